@@ -297,12 +297,10 @@ def _alarm(signum, frame):
 HANGS = [0]          # cases on which the implementation did not return in time, this run
 HANG_STOP = 5        # after that many, the remaining cases are not run (a hanging tree must not cost hours)
 POISONED = [False]   # a worker thread was abandoned while still running: it may hold locks; no further case is run
-BEAT = [time.time(), None]      # heartbeat for the watchdog: time of the last case start, the case
 
 
 CALLS = [0]
 THREAD_EVERY = 4     # every 4th case is served on a fresh worker thread instead of the importing (main) thread
-WATCHDOG_LIMIT = 900 # seconds without a case finishing before the run is given up (last resort, see _watchdog)
 
 
 def _in_worker(mod, case):
@@ -329,25 +327,89 @@ def _in_worker(mod, case):
     return box.get('r')
 
 
-def _watchdog(rid):
-    """last resort against a run that neither returns nor can be interrupted (a main thread blocked on a lock an
-    abandoned thread holds, a loop in C code): when no case finishes for WATCHDOG_LIMIT seconds the case in flight is
-    written as the replay, the violation is reported and the process ends.  Never reached on a tree that answers."""
-    import threading
+SHM = [None]         # shared with the supervising parent process: start time and JSON of the case in flight
+SHM_SIZE = 4 << 20
+SUPERVISOR_LIMIT = 150   # seconds one case may be in flight before the supervisor gives the run up
 
-    def watch():
-        while True:
-            time.sleep(5)
-            if BEAT[1] is not None and time.time() - BEAT[0] > WATCHDOG_LIMIT:
-                try:
-                    p = write_replay(rid, dict(property=rid, case=BEAT[1], impl={'hang': True},
-                                               oracle='the implementation did not return on this input (no answer for '
-                                                      '%d s; the run could not be continued)' % WATCHDOG_LIMIT))
-                    sys.stdout.write('VIOLATION property=%s replay=%s\n' % (rid, p))
-                    sys.stdout.flush()
-                finally:
-                    os._exit(1)
-    threading.Thread(target=watch, daemon=True).start()
+
+def _beat(case):
+    """tell the supervisor which case is in flight (case=None: none)"""
+    mm = SHM[0]
+    if mm is None:
+        return
+    import struct
+    if case is None:
+        mm[0:8] = struct.pack('d', 0.0)
+        return
+    try:
+        js = json.dumps(case, default=repr).encode()
+    except Exception:
+        js = b'null'
+    js = js[:SHM_SIZE - 16]
+    mm[8:12] = struct.pack('I', len(js))
+    mm[12:12 + len(js)] = js
+    mm[0:8] = struct.pack('d', time.time())
+
+
+def supervise(rid, tier):
+    """Fork: the child goes on as the check; the parent only watches it and passes its exit status on.  A loop inside C
+    code on a worker thread (a regular expression that backtracks for ever holds the interpreter lock: no signal
+    handler, no other thread of that process runs again) or a main thread blocked on a lock an abandoned thread holds
+    cannot be ended from inside.  When one case is in flight for more than SUPERVISOR_LIMIT seconds the parent writes that
+    case as the replay, reports the violation, kills the child's process group and exits 1.  On a tree that answers it
+    never acts."""
+    import mmap
+    import struct
+    mm = mmap.mmap(-1, SHM_SIZE)
+    mm[0:8] = struct.pack('d', 0.0)
+    sys.stdout.flush()
+    sys.stderr.flush()
+    child = os.fork()
+    if child == 0:
+        try:
+            os.setpgid(0, 0)
+            import ctypes
+            ctypes.CDLL(None).prctl(1, signal.SIGKILL)      # PR_SET_PDEATHSIG: do not outlive the supervisor
+        except Exception:
+            pass
+        SHM[0] = mm
+        return
+    # ---- parent
+    def _pass_on(signum, frame):
+        try:
+            os.killpg(child, signal.SIGKILL)
+        except Exception:
+            pass
+        os._exit(128 + signum)
+    for sg in (signal.SIGTERM, signal.SIGINT, signal.SIGHUP):
+        signal.signal(sg, _pass_on)
+    while True:
+        try:
+            w, st = os.waitpid(child, os.WNOHANG)
+        except ChildProcessError:
+            os._exit(2)
+        if w == child:
+            os._exit(os.WEXITSTATUS(st) if os.WIFEXITED(st) else 2)
+        t = struct.unpack('d', mm[0:8])[0]
+        if t and time.time() - t > SUPERVISOR_LIMIT:
+            n = struct.unpack('I', mm[8:12])[0]
+            try:
+                case = json.loads(bytes(mm[12:12 + n]).decode())
+            except Exception:
+                case = {'undecodable_case_prefix': bytes(mm[12:12 + min(n, 2000)]).decode('latin1')}
+            try:
+                os.killpg(child, signal.SIGKILL)
+            except Exception:
+                pass
+            msg = ('the implementation did not return on this input and could not be interrupted (no answer for %d s: '
+                   'a loop that never gives the interpreter back, or a lock held for ever); the run was ended by the '
+                   'supervising process' % SUPERVISOR_LIMIT)
+            p = write_replay(rid, dict(property=rid, case=case, impl={'hang': True}, oracle=msg, tier=tier))
+            print('VIOLATION property=%s replay=%s' % (rid, p))
+            print('%s tier=%s -> VIOLATION (%s)' % (rid, tier, msg))
+            sys.stdout.flush()
+            os._exit(1)
+        time.sleep(0.5)
 
 
 def run_impl_guarded(mod, case, limit=20):
@@ -357,7 +419,7 @@ def run_impl_guarded(mod, case, limit=20):
     # repeating: should one CaseTimeout be swallowed (a bare `except:`, a `finally` that loops), the next one follows
     signal.setitimer(signal.ITIMER_REAL, limit if HANGS[0] == 0 else 4, 1.0)
     CALLS[0] += 1
-    BEAT[0], BEAT[1] = time.time(), case
+    _beat(case)
     try:
         try:
             if CALLS[0] % THREAD_EVERY == 0 and not getattr(mod, 'MAIN_THREAD_ONLY', False) \
@@ -371,10 +433,10 @@ def run_impl_guarded(mod, case, limit=20):
             return {'escaped': type(e).__name__, 'msg': str(e)[:200]}
         finally:
             signal.setitimer(signal.ITIMER_REAL, 0)
-            BEAT[1] = None
+            _beat(None)
     except CaseTimeout:         # a tick of the repeating timer that arrived while the handlers above were running
         signal.setitimer(signal.ITIMER_REAL, 0)
-        BEAT[1] = None
+        _beat(None)
         HANGS[0] += 1
         return {'hang': True}
 
@@ -524,7 +586,8 @@ def main():
     rid = getattr(mod, 'PROPERTY', pid)   # id used in VIOLATION / KNOWN-FINDING lines (sub-checks report their property)
     rng = random.Random('%s/%s' % (seed, pid))
     findings = load_findings(pid)
-    _watchdog(rid)
+    if os.environ.get('VERIF_NO_SUPERVISOR') != '1':
+        supervise(rid, args.tier)
 
     if args.replay:
         with open(args.replay) as f:
